@@ -22,7 +22,7 @@ import common
 from common import Ctx, Outcome
 
 RULE = ("path strings enumerated exhaustively over the component alphabet "
-        "{'..','.','','a','b c','%41','é','\\\\','x.y'} x leading {'', '/', '//'} up to N components "
+        "{'..','.','','a','b c','%41','é','\\\\','x.y','%2e%2e','a%2fb'} x leading {'', '/', '//'} up to N components "
         "(N=3 quick, 4 thorough) x subdir settings x handlers x entry points, plus seeded random longer ones; "
         "distinct = distinct (stream, handler, subdir, name); non-trivial = the name contains a '..', '.', "
         "empty, absolute or special-character component, or a non-root subdir is configured")
@@ -46,7 +46,7 @@ MANIFEST = dict(
 )
 TRUSTED = ["C14: UTF-8 encoding of file names is done by CPython resp. Lean's String.toUTF8 (not modelled)"]
 
-ALPHA = ["..", ".", "", "a", "b c", "%41", "é", "\\", "x.y"]
+ALPHA = ["..", ".", "", "a", "b c", "%41", "é", "\\", "x.y", "%2e%2e", "a%2fb"]
 SUBDIRS = ["/", "", ".", "sub", "sub/dir", "../up", "/abs/x", "a/../b", "b c/é", "s/..", "//d"]
 
 
@@ -54,7 +54,8 @@ def gen_names(ctx: Ctx) -> list[str]:
     n = ctx.pick(3, 4)
     names = []
     for k in range(1, n + 1):
-        for comps in itertools.product(ALPHA, repeat=k):
+        # the full alphabet up to 3 components; the 4th level (thorough) over the first nine letters only
+        for comps in itertools.product(ALPHA if k <= 3 else ALPHA[:9], repeat=k):
             body = "/".join(comps)
             for lead in ("", "/", "//"):
                 names.append(lead + body)
